@@ -115,6 +115,24 @@ def _tail_returns_only(stmts):
     return True
 
 
+def _search_loop_to_any(stmts):
+    """`for u in C: if P(u): return A` + `return B` (A, B constants)  ->  `return A if any(P(u) for u in C) else B`:
+    any() stops at the first hit exactly like the loop does"""
+    if len(stmts) >= 2 and isinstance(stmts[-1], ast.Return) and isinstance(stmts[-1].value, ast.Constant) and isinstance(stmts[-2], ast.For):
+        lp = stmts[-2]
+        if not lp.orelse and len(lp.body) == 1 and isinstance(lp.body[0], ast.If) and not lp.body[0].orelse and len(lp.body[0].body) == 1 \
+                and isinstance(lp.body[0].body[0], ast.Return) and isinstance(lp.body[0].body[0].value, ast.Constant) \
+                and isinstance(lp.target, (ast.Name, ast.Tuple)):
+            gen = ast.GeneratorExp(elt=copy.deepcopy(lp.body[0].test),
+                                   generators=[ast.comprehension(target=copy.deepcopy(lp.target), iter=copy.deepcopy(lp.iter), ifs=[], is_async=0)])
+            call = ast.Call(func=ast.Name(id="any", ctx=ast.Load()), args=[gen], keywords=[])
+            ret = ast.Return(value=ast.IfExp(test=call, body=copy.deepcopy(lp.body[0].body[0].value), orelse=copy.deepcopy(stmts[-1].value)))
+            ast.copy_location(ret, lp)
+            ast.fix_missing_locations(ret)
+            return list(stmts[:-2]) + [ret]
+    return stmts
+
+
 def _always_returns(stmts):
     if not stmts:
         return False
@@ -294,7 +312,7 @@ class Inliner:
         body = list(helper.node.body)
         if body and isinstance(body[0], ast.Expr) and isinstance(body[0].value, ast.Constant) and isinstance(body[0].value.value, str):
             body = body[1:]
-        return body
+        return _search_loop_to_any(body)
 
     def _eligible(self, helper, caller):
         body = self._body(helper)
